@@ -253,3 +253,33 @@ def repeated_calls_follow_the_current_hyperparameters(h, m, p):
     t2 = np.array(th, dtype=dt)            # back to the first values through a fresh array
     h.eq("fresh array with the first values: mean-only path", inv.calculate_posterior_mean(t2), closed_form(t2)[0])
     h.eq("fresh array with the first values: covariance", inv.calculate_posterior(t2)[1], closed_form(t2)[1])
+
+
+@unit("C17", quick=[dict(m=2, p=2)], thorough=[dict(m=2, p=3)], cost=5, timeout_ms=60000)
+def inverters_are_independent_objects(h, m, p):
+    """two inverters built one after the other with the *default* prior (kernel and mean not given), on different
+    parameter positions: what the first one returns (both posterior paths, evidence, evidence gradient) must not change
+    when the second one is constructed, and the second must be unaffected by the first.  Real SquaredExponential /
+    ConstantMean code on symbolic positions"""
+    import inference.gp.inversion as iv
+    cv, mn = gc.patch_cov(h)
+    h.patch(iv, solve=stubs.gauss_solve, solve_triangular=stubs.solve_triangular, cholesky=stubs.cholesky, zeros=ozeros)
+    h.allow(np.linalg.LinAlgError)
+    A = h.real("A", (m, p))
+    y = h.real("y", m)
+    e = h.real("yerr", m, pos=True)
+    pos1 = h.real("pos1", (p, 1))
+    pos2 = h.real("pos2", (p, 1))
+    th = h.real("th", 3)          # ConstantMean (1) + SquaredExponential in one dimension (2)
+    first = iv.GpLinearInverter(y=y, y_err=e, model_matrix=A, parameter_spatial_positions=pos1)
+    before = (first.calculate_posterior(th), first.calculate_posterior_mean(th), first.marginal_likelihood(th))
+    second = iv.GpLinearInverter(y=y, y_err=e, model_matrix=A, parameter_spatial_positions=pos2)
+    second.calculate_posterior(th)
+    after = (first.calculate_posterior(th), first.calculate_posterior_mean(th), first.marginal_likelihood(th))
+    h.eq("first inverter: posterior mean unchanged by constructing a second inverter", after[0][0], before[0][0])
+    h.eq("first inverter: posterior covariance unchanged", after[0][1], before[0][1])
+    h.eq("first inverter: mean-only path unchanged", after[1], before[1])
+    h.eq("first inverter: evidence unchanged", after[2], before[2])
+    alone = iv.GpLinearInverter(y=y, y_err=e, model_matrix=A, parameter_spatial_positions=pos2, prior_covariance_function=cv.SquaredExponential(),
+                                prior_mean_function=mn.ConstantMean())
+    h.eq("second inverter == an inverter with its own explicitly given prior objects", second.calculate_posterior(th)[0], alone.calculate_posterior(th)[0])
